@@ -507,9 +507,17 @@ def random_spec(r, regime="calibrated", features=None):
             interactions.append({"name": "w0", "pairs": pairs})
             a, b = r.choice(stocks), r.choice(stocks)
             forms = [f"SRC_POP_AVG({a}, w0, {b})", f"SRC_POP_SUM({a}, w0)", f"TGT_POP_AVG({a}, w0)", f"SRC_POP_AVG({a})", f"TGT_POP_SUM({a}, w0)", f"SRC_POP_AVG({a}, w0)"]
+            wpar = f.get("agg_weight_par") and r.random() < f["agg_weight_par"]
+            if wpar:
+                # weighting by a function PARAMETER that is declared after the aggregation and itself depends on a data parameter (its place in the execution order matters)
+                forms = [f"SRC_POP_AVG({a}, w0, zw0)", f"TGT_POP_AVG({a}, w0, zw0)", f"SRC_POP_SUM({a}, w0, zw0)"]
             agg = {"name": "agg0", "format": "number", "timescale": None, "function": r.choice(forms), "min": None, "max": None, "timed": False, "targetable": False, "databook": False, "value": {}}
             pars.append(agg)
             used.add("agg0")
+            if wpar:
+                pars.append(dict(agg, name="zw0", function=f"zq0*{b}/(alive+1)"))
+                pars.append(dict(agg, name="zq0", format="probability", function=None, databook=True, value={pop: r.choice([0.5, 0.75, 1.0]) for pop in pops}))
+                used.update(["zw0", "zq0"])
             if r.random() < 0.6:  # a second aggregation sharing the same interaction
                 agg1 = dict(agg, name="agg1", function=r.choice(forms))
                 pars.append(agg1)
